@@ -466,6 +466,9 @@ class MarkdownNormalizer(Renderer):
         # Reset the skip flag since we're not rendering a blank line
         self._skip_next_blank_line = False
 
+        # Nothing has been written inside the quote yet, so a loose list that opens it has
+        # no previous block to be separated from.
+        self._suppress_item_break = True
         with self.container("> ", "> "):
             result = self.render_children(element).rstrip("\n")
         self._prefix = self._second_prefix
